@@ -28,43 +28,43 @@ type KV struct {
 // Run is one simulated execution; harnesses receive it.
 type Run struct {
 	*simrt.Kernel
-	ID       string
-	Tier     string
-	Seed     uint64
-	Index    uint64
-	Tape     *Tape
-	KeepLog  bool
-	Steps    int
-	Faults   map[string]int
-	Probes   map[string]int
-	Cfg      []KV
-	Ops      []string // short human-readable operation log for samples (bounded)
-	Events   []string
-	EvHash   uint64
-	Checks   int // non-vacuous oracle clause evaluations
+	ID        string
+	Tier      string
+	Seed      uint64
+	Index     uint64
+	Tape      *Tape
+	KeepLog   bool
+	Steps     int
+	Faults    map[string]int
+	Probes    map[string]int
+	Cfg       []KV
+	Ops       []string // short human-readable operation log for samples (bounded)
+	Events    []string
+	EvHash    uint64
+	Checks    int // non-vacuous oracle clause evaluations
 	Truncated bool
 	Stalled   bool
 
-	start    time.Time
-	mu       sync.Mutex
-	viol     *Violation
-	knownHit []Violation
-	live     atomic.Int32
-	cleanups []func()
-	known    func(clause, sig string) bool
-	abort    chan struct{}
-	panicked atomic.Pointer[string]
+	start                time.Time
+	mu                   sync.Mutex
+	viol                 *Violation
+	knownHit             []Violation
+	live                 atomic.Int32
+	cleanups             []func()
+	known                func(clause, sig string) bool
+	abort                chan struct{}
+	panicked             atomic.Pointer[string]
 	taskPanicIsViolation bool
-	SimTime  time.Duration
-	ended    bool // the run function has returned; clean-ups are running
-	evseq    uint64
-	lastTask int
-	post     []func()
-	inPost   bool
-	prio      map[int]int // PCT priorities by task id
-	pctChange []int
-	pctLow    int
-	sutPanic func(site, value, stack string)
+	SimTime              time.Duration
+	ended                bool // the run function has returned; clean-ups are running
+	evseq                uint64
+	lastTask             int
+	post                 []func()
+	inPost               bool
+	prio                 map[int]int // PCT priorities by task id
+	pctChange            []int
+	pctLow               int
+	sutPanic             func(site, value, stack string)
 }
 
 // AfterBubble registers work (typically a linearizability check of the
@@ -776,8 +776,8 @@ type Harness struct {
 	ID  string
 	Run func(r *Run)
 	// Components for the evidence file.
-	Real, Stub []string
-	Rule       string // how cases are generated and what counts as distinct/non-trivial
+	Real, Stub  []string
+	Rule        string // how cases are generated and what counts as distinct/non-trivial
 	Assumptions []string
 	// Setup runs once per worker process before the first run, outside any
 	// simulation (for what cannot be created inside one, e.g. a listener).
